@@ -201,6 +201,12 @@ def r33_2(ctx, m):
             if len(ps) < 2 or not bodies:
                 verdict = None
             for body, atoms in bodies:
+                if isinstance(body, ast.Call) and call_name(body) == "einsum" and body.args and isinstance(body.args[0], ast.Constant) \
+                        and "..." in str(body.args[0].value):
+                    verdict = False
+                    det.append(f"`{src(body)}` broadcasts the operands against each other: leaves of equal size but different "
+                               "(broadcast-compatible) shapes are not paired entry by entry as in the flat-array product")
+                    continue
                 if not (isinstance(body, ast.Call) and call_name(body) in ("dot", "vdot") and len(body.args) >= 2):
                     verdict = None
                     det.append(f"`{src(body)}` not a dot/vdot call")
@@ -211,6 +217,10 @@ def r33_2(ctx, m):
                         x = x.args[0] if x.args else x.func.value
                     return x
                 x0, x1 = strip(body.args[0]), strip(body.args[1])
+                if call_name(body) == "dot" and (x0 is body.args[0] or x1 is body.args[1]):
+                    verdict = False
+                    det.append(f"`{src(body)}`: jnp.dot of unravelled leaves is a matrix product, not the flat dot product")
+                    continue
                 conj0 = isinstance(x0, ast.Call) and call_name(x0) in ("conj", "conjugate", "_conj")
                 if conj0:
                     x0 = strip(x0.args[0] if x0.args else x0.func.value)
@@ -425,3 +435,103 @@ def run(ctx):  # noqa: F811
     _run_c33b(ctx)
     r33_2(ctx, ctx.model)
     r33_3(ctx, ctx.model)
+
+
+FMM = "nifty.re.tree_math.forest_math"
+
+
+def r33_4(ctx, m):
+    """sequential maps return what vmap returns: output buffers keep the mapped function's dtype"""
+    ctx.rule("R33.4", "sequential scan behind lmap: the output buffer of every leaf is allocated with the shape (length,) + shape(y) "
+                      "and the DTYPE OF THE MAPPED OUTPUT y (empty_like/zeros_like/full_like of y, or an explicit dtype=y.dtype); a "
+                      "promoted or default dtype turns integer/boolean outputs into floats, unlike jax.vmap", floor=1)
+    fi = m.func(CM, "_lscan", required=False)
+    if fi is None:
+        ctx.error("R33.4: _lscan missing")
+        return
+    ctx.saw_func(fi)
+    allocs = []
+    for lam in ast.walk(fi.node):
+        if isinstance(lam, ast.Lambda) and len(lam.args.args) == 1 and isinstance(lam.body, ast.Call):
+            nm = call_name(lam.body)
+            if nm in ("empty_like", "zeros_like", "full_like", "ones_like", "empty", "zeros", "full", "ones"):
+                allocs.append(lam)
+    if not allocs:
+        ctx.und("R33.4", f"{fi.key}::output buffer", "allocation not found", fi)
+        return
+    for lam in allocs:
+        x = lam.args.args[0].arg
+        c = lam.body
+        nm = call_name(c)
+        kw = {k.arg: k.value for k in c.keywords}
+        key = f"{fi.key}::`{short(c, 60)}` keeps the dtype of the mapped output"
+        if nm.endswith("_like"):
+            proto_ok = c.args and src(c.args[0]) == x
+            dt = kw.get("dtype")
+            if not proto_ok:
+                ctx.und("R33.4", key, "prototype is not the mapped output", fi, c)
+            elif dt is not None and src(dt) not in (f"{x}.dtype", f"jnp.result_type({x})"):
+                ctx.bad("R33.4", key, f"dtype overridden with `{src(dt)}`", fi, c)
+            else:
+                shp = kw.get("shape")
+                ctx.check("R33.4", key, True if shp is not None and src(shp).replace(" ", "") in (f"(length,)+jnp.shape({x})", f"(length,)+{x}.shape", f"(length,*jnp.shape({x}))") else None,
+                          f"shape {src(shp) if shp is not None else None}", fi, c)
+        else:
+            dt = kw.get("dtype") or (c.args[2] if nm == "full" and len(c.args) > 2 else (c.args[1] if nm != "full" and len(c.args) > 1 else None))
+            if dt is None:
+                ctx.bad("R33.4", key, "no dtype given: the buffer is float by default whatever the mapped function returns", fi, c)
+            elif src(dt) in (f"{x}.dtype", f"jnp.result_type({x})", f"jnp.asarray({x}).dtype"):
+                ctx.ok("R33.4", key, None, fi, c)
+            else:
+                ctx.bad("R33.4", key, f"dtype `{src(dt)}` is not the dtype of the mapped output `{x}`", fi, c)
+
+
+def r33_5(ctx, m):
+    """stack / unstack are inverse to each other along one axis"""
+    ctx.rule("R33.5", "forest_math.stack joins the leaves with jnp.stack(..., axis=axis); unstack splits every leaf into its "
+                      "shape[axis]... pieces along that axis and removes exactly that axis again (squeeze with axis=axis): a squeeze "
+                      "without axis also removes genuine length-1 dimensions of the leaves", floor=2)
+    st_, us = m.func(FMM, "stack", required=False), m.func(FMM, "unstack", required=False)
+    if st_ is None or us is None:
+        ctx.error("R33.5: stack/unstack missing")
+        return
+    ctx.saw_func(st_)
+    ctx.saw_func(us)
+    ax = st_.params()[1] if len(st_.params()) > 1 else None
+    calls = [c for c in ast.walk(st_.node) if isinstance(c, ast.Call) and call_name(c) == "stack" and src(c.func) != "stack"]
+    ok = len(calls) == 1 and any(k.arg == "axis" and src(k.value) == ax for k in calls[0].keywords)
+    ctx.check("R33.5", f"{st_.key}::jnp.stack along `{ax}`", ok if calls else None, src(calls[0]) if calls else None, st_)
+    ax = us.params()[1] if len(us.params()) > 1 else None
+    sq = [x for x in ast.walk(us.node) if (isinstance(x, ast.Attribute) and x.attr == "squeeze") or (isinstance(x, ast.Name) and x.id == "squeeze")]
+    key = f"{us.key}::removes exactly the split axis"
+    if len(sq) != 1:
+        ctx.und("R33.5", key, f"{len(sq)} squeeze references", us)
+        return
+    # the enclosing call: partial(jnp.squeeze, axis=axis) or jnp.squeeze(x, axis=axis)
+    pm = {}
+    for p_ in ast.walk(us.node):
+        for c_ in ast.iter_child_nodes(p_):
+            pm[id(c_)] = p_
+    par = pm.get(id(sq[0]))
+    if isinstance(par, ast.Call) and (par.func is sq[0] or (call_name(par) == "partial" and par.args and par.args[0] is sq[0])):
+        kws = {k.arg: src(k.value) for k in par.keywords}
+        posax = src(par.args[1]) if par.func is sq[0] and len(par.args) > 1 else None
+        given = kws.get("axis") or posax
+        if given is None:
+            ctx.bad("R33.5", key, f"`{src(par)}` squeezes every length-1 axis", us, par)
+        else:
+            ctx.check("R33.5", key, given == ax, f"`{src(par)}`", us, par)
+    else:
+        ctx.bad("R33.5", key, f"`{src(sq[0])}` is used without an axis argument: every length-1 axis is removed", us, sq[0])
+    sp = [c for c in ast.walk(us.node) if isinstance(c, ast.Call) and (call_name(c) == "partial" and c.args and src(c.args[0]).endswith("split") or call_name(c) == "split")]
+    okk = len(sp) == 1 and any(k.arg == "axis" and src(k.value) == ax for k in sp[0].keywords)
+    ctx.check("R33.5", f"{us.key}::splits along `{ax}`", okk if sp else None, src(sp[0]) if sp else None, us)
+
+
+_run_c33c = run
+
+
+def run(ctx):  # noqa: F811
+    _run_c33c(ctx)
+    r33_4(ctx, ctx.model)
+    r33_5(ctx, ctx.model)
